@@ -200,6 +200,15 @@ func (x *ExecCtx) execVal(v ssa.Value) (ok bool, neg bool) {
 			return o, !n
 		}
 		if y.Op == token.MUL {
+			// a local copy of the flag that a closure captured: loads go through its cell
+			switch cell := y.X.(type) {
+			case *ssa.FreeVar:
+				return x.execVal(cell)
+			case *ssa.Alloc:
+				if sv := singleStore(cell); sv != nil {
+					return x.execVal(sv)
+				}
+			}
 			if fa, isFA := y.X.(*ssa.FieldAddr); isFA {
 				n, f := fieldOf(fa.X.Type(), fa.Field)
 				if f != nil && (f.Name() == "Exec" && namedIs(n, absPkg(pkgCT), "TrxContext") ||
@@ -461,6 +470,23 @@ func (w *World) ledgerKind(v ssa.Value) (kind string, desc string) {
 	desc = w.Canon(v)
 	switch y := v.(type) {
 	case *ssa.UnOp:
+		// a local copy of the ledger handle (possibly captured by a closure)
+		if y.Op == token.MUL && w.ledgerKindDepth < 3 {
+			var cell ssa.Value = y.X
+			if fv, isFV := cell.(*ssa.FreeVar); isFV {
+				cell = w.freeVarBinding(fv)
+			}
+			if a, isA := cell.(*ssa.Alloc); isA {
+				if sv := singleStore(a); sv != nil {
+					w.ledgerKindDepth++
+					k, _ := w.ledgerKind(sv)
+					w.ledgerKindDepth--
+					if k != "unknown" {
+						return k, desc
+					}
+				}
+			}
+		}
 		if fa, ok := y.X.(*ssa.FieldAddr); ok {
 			n, f := fieldOf(fa.X.Type(), fa.Field)
 			if n != nil && f != nil {
